@@ -81,6 +81,23 @@ CLAIMED.update({
     note='Trusted: shim, z3. Real arithmetic. Known finding: bottleneck scheme on non-conserved flux over-counts (known_findings.jsonl).',
     ref='DESIGN.md section 8 C17'),
 })
+CLAIMED.update({
+ 'C07': dict(
+    technique='symbolic execution of committors/mfpts on a symbolic row-stochastic matrix; solve/inv as contracts; z3 QF_NRA validity of the first-step equations',
+    text='committors() and mfpts() run on matrices whose entries are real solver variables (row-stochastic, irreducible by positivity or by '
+         'an enumerated zero pattern), for every source/sink set pair in the bound; z3 proves the boundary values, the first-step equations, the '
+         '[0,1] range, the all-pairs table against the single-sink equations (n=2) and that the inputs are unchanged.',
+    note='Trusted: shim, z3, the linear-solver contracts (A.x=b; Z.M=I). Sparse container path and float conditioning are outside the claim.',
+    ref='DESIGN.md section 8 C07'),
+ 'C08': dict(
+    technique='symbolic execution of reactive_fluxes/net_fluxes/reactive_populations on a symbolic reversible chain; z3 QF_NRA validity',
+    text='The flux routines run on a symbolic reversible chain (detailed balance with symbolic populations); z3 proves the flux formula cell by '
+         'cell (catches transposed broadcasting), positive-part net flux, one-directional net flux, conservation at intermediates, no flow into '
+         'sources / out of sinks, source outflow = sink inflow and the reactive-population vector, for every source/sink set pair at n<=3 and a '
+         'chain pattern at n=4.',
+    note='Trusted: shim, z3, spsolve contract. Dense inputs only.',
+    ref='DESIGN.md section 8 C08'),
+})
 PENDING = 'check not built yet in this session (work in progress; see DESIGN.md section 8 for the plan)'
 NA = {}
 
